@@ -1,7 +1,10 @@
 import Tea.Proofs.Flush
+import Tea.Proofs.Outside
 /-
 Alt-screen flushes on a `Term`: the general one-flush theorem (`alt_flush_term`),
-the renderer/terminal invariant `AltInv`, and its preservation.
+the renderer/terminal invariant `AltInv`, and its preservation — by every step that stays on
+the alt screen (`alt_step_inv`) and by resizes (`alt_resize_inv`; `runT` runs a history in which
+the terminal is resized at `.size` steps).
 -/
 namespace Tea.Render
 open Tea Tea.VT
@@ -76,7 +79,9 @@ theorem alt_flush_term (r : RState) (t : Term) (halt : r.altActive = true) (hon 
 the alt screen with the same size (the cursor may be anywhere: an alt-screen flush starts with
 HOME); every window row from `altLinesRendered` on is blank; when the line cache is valid it has
 `altLinesRendered` lines and window row `i` shows cached line `i` (cut at the width, padded with
-blanks); and the cache, when `lastRender` is set, is the frame of `lastRender`. -/
+blanks); the cache, when `lastRender` is set, is the frame of `lastRender`; and every cell of the
+alt buffer outside the window rectangle (below its last row or right of its last column) is blank
+(`outside`: nothing is ever written there, so a window that grows shows blank cells). -/
 structure AltInv (r : RState) (t : Term) : Prop where
   alt : r.altActive = true
   onAlt : t.onAlt = true
@@ -88,9 +93,10 @@ structure AltInv (r : RState) (t : Term) : Prop where
   cache : ∀ ls, r.lastLines = some ls → ls.length = r.altLinesRendered ∧
       ∀ i l, ls[i]? = some l → rowShows t.w t.alt (t.alt.top + i) (Ansi.visible l)
   render : r.lastRender ≠ [] → r.lastLines = some (frameOf r.height r.lastRender)
+  outside : ∀ ρ c, (t.alt.top + t.h ≤ ρ ∨ t.w ≤ c) → t.alt.cells ρ c = 32
 
 theorem AltInv.write {r : RState} {t : Term} (h : AltInv r t) (s : Bytes) : AltInv (write r s) t :=
-  ⟨h.alt, h.onAlt, h.width, h.height, h.wpos, h.hpos, h.below, h.cache, h.render⟩
+  ⟨h.alt, h.onAlt, h.width, h.height, h.wpos, h.hpos, h.below, h.cache, h.render, h.outside⟩
 
 theorem write_buf_ne (r : RState) (s : Bytes) : (write r s).buf ≠ [] := by
   unfold write
@@ -131,6 +137,14 @@ theorem alt_flush_inv (r : RState) (t : Term) (hinv : AltInv r t) (hbuf : r.buf 
         | some ls => exact (hinv.cache ls hll).2 j l (sameAsLast_some hll hs))
       _ rfl
     have hn1 : 1 ≤ (frameLines r).length := by rw [frameLines_eq]; exact frameOf_length_pos _ _
+    have hout : OutsideBlank t.w t.h (applyOps t (flush r).2).alt := by
+      rw [flush_alt_ops r hinv.alt hne, List.singleton_append]
+      refine applyOps_home_outside _ t hinv.onAlt ?_ hinv.wpos hinv.hpos hinv.outside
+      intro op hop
+      simp only [List.mem_append, List.mem_singleton] at hop
+      rcases hop with hop | rfl
+      · exact paintOps_bufOps _ _ _ _ _ _ op hop
+      · rfl
     generalize applyOps t (flush r).2 = t' at *
     have e := flush_state r hne
     generalize (flush r).1 = r' at e ⊢
@@ -141,7 +155,7 @@ theorem alt_flush_inv (r : RState) (t : Term) (hinv : AltInv r t) (hbuf : r.buf 
     have f5 : r'.lastLines = some (frameLines r) := by rw [e]
     have f6 : r'.lastRender = r.buf := by rw [e]
     refine ⟨⟨f1, s1, by rw [s2, f2]; exact hinv.width, by rw [s3, f3]; exact hinv.height,
-      by rw [s2]; exact hinv.wpos, by rw [s3]; exact hinv.hpos, ?_, ?_, ?_⟩,
+      by rw [s2]; exact hinv.wpos, by rw [s3]; exact hinv.hpos, ?_, ?_, ?_, by rw [s2, s3]; exact hout⟩,
       s5, s4, s2, s3, f5, f4, fun _ => ⟨s6, s7, s8⟩⟩
     · intro i hi hih
       rw [s2, s5]
@@ -183,15 +197,17 @@ theorem AltInv.congr {r r' : RState} {t t' : Term} (h : AltInv r t)
     (f1 : t'.onAlt = t.onAlt) (f2 : t'.w = t.w) (f3 : t'.h = t.h) (f4 : t'.alt = t.alt) :
     AltInv r' t' := by
   refine ⟨by rw [e1]; exact h.alt, by rw [f1]; exact h.onAlt, by rw [e2, f2]; exact h.width,
-    by rw [e3, f3]; exact h.height, by rw [f2]; exact h.wpos, by rw [f3]; exact h.hpos, ?_, ?_, ?_⟩
+    by rw [e3, f3]; exact h.height, by rw [f2]; exact h.wpos, by rw [f3]; exact h.hpos, ?_, ?_, ?_, ?_⟩
   · rw [e4, f2, f3, f4]; exact h.below
   · rw [e4, e5, f2, f4]; exact h.cache
   · rw [e3, e5, e6]; exact h.render
+  · rw [f2, f3, f4]; exact h.outside
 
 /-- invalidating the cache keeps the invariant (it only weakens what is known) -/
 theorem AltInv.repaint {r : RState} {t : Term} (h : AltInv r t) : AltInv r.repaint t :=
   ⟨h.alt, h.onAlt, h.width, h.height, h.wpos, h.hpos, h.below,
-    fun _ hls => by simp [RState.repaint] at hls, fun hne => by simp [RState.repaint] at hne⟩
+    fun _ hls => by simp [RState.repaint] at hls, fun hne => by simp [RState.repaint] at hne,
+    h.outside⟩
 
 /-- entering the alt screen establishes the invariant -/
 theorem enterAlt_inv (r : RState) (t : Term) (ha : r.altActive = false) (hon : t.onAlt = false)
@@ -211,7 +227,8 @@ theorem enterAlt_inv (r : RState) (t : Term) (ha : r.altActive = false) (hon : t
         Buf.eraseRows]
   obtain ⟨h1, h2, h3, h4⟩ := ht
   generalize applyOps t [.decset 1049, .ed2, .home, cursorOp r.cursorHidden] = t' at *
-  refine ⟨rfl, h1, by rw [h2]; exact hw, by rw [h3]; exact hh, by omega, by omega, ?_, ?_, ?_⟩
+  refine ⟨rfl, h1, by rw [h2]; exact hw, by rw [h3]; exact hh, by omega, by omega, ?_, ?_, ?_,
+    fun ρ c _ => h4 ρ c⟩
   · intro i _ _ c _; exact h4 _ _
   · intro ls hls; simp [RState.repaint] at hls
   · intro hne; simp [RState.repaint] at hne
@@ -230,23 +247,31 @@ theorem clearScreen_inv (r : RState) (t : Term) (h : AltInv r t) :
   have hb : t.buf = t.alt := term_buf_alt t h.onAlt
   have ht : (applyOps t [.ed2, .home]).onAlt = true ∧ (applyOps t [.ed2, .home]).w = t.w ∧
       (applyOps t [.ed2, .home]).h = t.h ∧ (applyOps t [.ed2, .home]).alt.top = t.alt.top ∧
-      ∀ ρ c, t.alt.top ≤ ρ → ρ < t.alt.top + t.h → c < t.w →
-        (applyOps t [.ed2, .home]).alt.cells ρ c = 32 := by
+      (∀ ρ c, t.alt.top ≤ ρ → ρ < t.alt.top + t.h → c < t.w →
+        (applyOps t [.ed2, .home]).alt.cells ρ c = 32) ∧
+      (∀ ρ c, (t.alt.top + t.h ≤ ρ ∨ t.w ≤ c) →
+        (applyOps t [.ed2, .home]).alt.cells ρ c = t.alt.cells ρ c) := by
     simp only [applyOps, List.foldl_cons, List.foldl_nil, apply]
     simp only [Term.setBuf, Term.buf, h.onAlt, if_true, applyBuf, cupRow, Buf.eraseRows]
-    refine ⟨trivial, trivial, trivial, trivial, ?_⟩
-    intro ρ c h1 h2 h3
-    simp [h1, h2, h3]
-  obtain ⟨h1, h2, h3, h4, h5⟩ := ht
+    refine ⟨trivial, trivial, trivial, trivial, ?_, ?_⟩
+    · intro ρ c h1 h2 h3
+      simp [h1, h2, h3]
+    · intro ρ c h1
+      rw [if_neg (by omega)]
+  obtain ⟨h1, h2, h3, h4, h5, h6⟩ := ht
   show AltInv r.repaint (applyOps t [.ed2, .home])
   generalize applyOps t [.ed2, .home] = t' at *
   refine ⟨h.alt, h1, by rw [h2]; exact h.width, by rw [h3]; exact h.height, by rw [h2]; exact h.wpos,
-    by rw [h3]; exact h.hpos, ?_, ?_, ?_⟩
+    by rw [h3]; exact h.hpos, ?_, ?_, ?_, ?_⟩
   · intro i _ hi c hc
     rw [h3] at hi; rw [h2] at hc; rw [h4]
     exact h5 _ _ (by omega) (by omega) hc
   · intro ls hls; simp [RState.repaint] at hls
   · intro hne; simp [RState.repaint] at hne
+  · intro ρ c hρc
+    rw [h2, h3, h4] at hρc
+    rw [h6 ρ c hρc]
+    exact h.outside ρ c hρc
 
 /-- the steps that keep renderer and terminal on the alt screen with an unchanged size -/
 def altStable : ROp → Bool
@@ -300,5 +325,91 @@ theorem alt_step_inv (r : RState) (t : Term) (h : AltInv r t) (op : ROp) (hop : 
   | noPaste => exact mode _ 2004 false (by decide) rfl rfl rfl rfl rfl rfl
   | focus => exact mode _ 1004 true (by decide) rfl rfl rfl rfl rfl rfl
   | noFocus => exact mode _ 1004 false (by decide) rfl rfl rfl rfl rfl rfl
+
+/-! ### resizes on the alt screen -/
+
+/-- what `Term.resize` does to a terminal that is on the alt screen: the size changes, the alt
+buffer is cut to the new window rectangle (everything outside it becomes blank), the window does
+not move, the main screen and the modes are untouched -/
+theorem resize_alt (t : Term) (w h : Nat) (hon : t.onAlt = true) :
+    (resize t w h).onAlt = true ∧ (resize t w h).w = w ∧ (resize t w h).h = h ∧
+    (resize t w h).main = t.main ∧ (resize t w h).alt.top = t.alt.top ∧
+    (∀ ρ c, (resize t w h).alt.cells ρ c =
+      if c ≥ w ∨ ρ ≥ t.alt.top + h then 32 else t.alt.cells ρ c) ∧
+    (resize t w h).alt.cr = (if t.alt.cr > t.alt.top + h - 1 then t.alt.top + h - 1 else t.alt.cr) ∧
+    (resize t w h).alt.cc = (if t.alt.cc > w - 1 then w - 1 else t.alt.cc) ∧
+    (resize t w h).alt.pw = false := by
+  simp [resize, Term.setBuf, Term.buf, hon]
+
+/-- **A resize keeps the alt-screen invariant.**  The terminal cuts the alt buffer to the new
+window rectangle and the renderer's `.size w h` step (which writes nothing) adopts the new size
+and invalidates its cache: rows `≥ altLinesRendered` of the new window are blank — inside the old
+rectangle by `below`, outside it by `outside` (this is where a window that GROWS needs the cells
+beyond the old rectangle to be blank) — and everything outside the new rectangle was just cut. -/
+theorem alt_resize_inv (r : RState) (t : Term) (hinv : AltInv r t) (w h : Nat) (hw : 1 ≤ w)
+    (hh : 1 ≤ h) :
+    AltInv (step r (.size w h)).1 (resize t w h) ∧ (step r (.size w h)).2 = [] := by
+  obtain ⟨a1, a2, a3, _, a5, a6, _⟩ := resize_alt t w h hinv.onAlt
+  refine ⟨⟨hinv.alt, a1, by rw [a2]; rfl, by rw [a3]; rfl, by rw [a2]; exact hw, by rw [a3]; exact hh,
+    ?_, ?_, ?_, ?_⟩, rfl⟩
+  · intro i hi hih c hc
+    rw [a2] at hc
+    rw [a3] at hih
+    rw [a5, a6, if_neg (by omega)]
+    by_cases hin : i < t.h ∧ c < t.w
+    · exact hinv.below i hi hin.1 c hin.2
+    · exact hinv.outside _ _ (by omega)
+  · intro ls hls; simp [step, RState.repaint] at hls
+  · intro hne; simp [step, RState.repaint] at hne
+  · intro ρ c hρc
+    rw [a2, a3, a5] at hρc
+    rw [a6, if_pos (by omega)]
+
+/-- one step of a history that feeds the terminal: a `.size w h` step is the terminal being
+resized (`Term.resize`) while the renderer handles the `WindowSizeMsg`; for every other
+operation the terminal receives what the renderer's step writes -/
+def stepT (r : RState) (t : Term) (o : ROp) : RState × Term :=
+  ((step r o).1,
+    match o with
+    | .size w h => resize t w h
+    | _ => applyOps t (step r o).2)
+
+/-- run a history, feeding the terminal (resizes included) -/
+def runT (r : RState) (t : Term) : List ROp → RState × Term
+  | [] => (r, t)
+  | o :: os => runT (stepT r t o).1 (stepT r t o).2 os
+
+@[simp] theorem runT_nil (r : RState) (t : Term) : runT r t [] = (r, t) := rfl
+@[simp] theorem runT_cons (r : RState) (t : Term) (o : ROp) (os : List ROp) :
+    runT r t (o :: os) = runT (stepT r t o).1 (stepT r t o).2 os := rfl
+
+theorem stepT_size (r : RState) (t : Term) (w h : Nat) :
+    stepT r t (.size w h) = ((step r (.size w h)).1, resize t w h) := rfl
+
+theorem stepT_of_stable (r : RState) (t : Term) (o : ROp) (ho : altStable o = true) :
+    stepT r t o = ((step r o).1, applyOps t (step r o).2) := by
+  cases o <;> first | rfl | simp [altStable] at ho
+
+/-- the steps that keep renderer and terminal on the alt screen: those of `altStable`, and
+resizes to a size of at least one column and one row -/
+def altStableR : ROp → Bool
+  | .size w h => decide (1 ≤ w ∧ 1 ≤ h)
+  | o => altStable o
+
+theorem altStableR_of_altStable (o : ROp) (h : altStable o = true) : altStableR o = true := by
+  cases o <;> first | exact h | simp [altStable] at h
+
+/-- `AltInv` is an invariant of every step of `altStableR`, resizes included -/
+theorem alt_stepT_inv (r : RState) (t : Term) (h : AltInv r t) (op : ROp)
+    (hop : altStableR op = true) : AltInv (stepT r t op).1 (stepT r t op).2 := by
+  by_cases hs : altStable op = true
+  · rw [stepT_of_stable r t op hs]
+    exact alt_step_inv r t h op hs
+  · cases op with
+    | size w h' =>
+      have : 1 ≤ w ∧ 1 ≤ h' := by simpa [altStableR] using hop
+      rw [stepT_size]
+      exact (alt_resize_inv r t h w h' this.1 this.2).1
+    | _ => first | exact absurd hop hs | exact absurd rfl hs
 
 end Tea.Render
